@@ -251,6 +251,24 @@ func (h *Harness) finalOracles() {
 
 	// ---- C06 (step-stamped: controlled mode only)
 	for _, r := range h.reqs {
+		if !h.race && h.end == endDeadlock && r.Invoked && !r.Returned && !cfg.EarlyReturn && r.Plan.NItems > 0 {
+			// the system can make no further progress: a call whose items have all
+			// been exported, every such export having returned, will never return
+			all, allReturned := true, true
+			for _, it := range r.Items {
+				if h.expCount[it.Vid] == 0 {
+					all = false
+				}
+			}
+			for _, ex := range h.exportsOf(r) {
+				if !ex.Returned {
+					allReturned = false
+				}
+			}
+			if all && allReturned {
+				h.violate("C06", "returns-eventually", fmt.Sprintf("Consume(req#%d) never returns although every export that carried its %d items has returned; the system can make no further progress", r.Plan.ID, r.Plan.NItems), nil)
+			}
+		}
 		if h.race || !r.Returned || !r.Invoked {
 			continue
 		}
